@@ -27,7 +27,11 @@ def member_of(d, violating=0.6, ftype=None, opts=None, prefer=(), only=None):
                 continue
             q.variant = (o["id"], cls, li)
             q.header_fields = p.header_fields
+            if opts and opts.get("decorate"):
+                prog.decorate(q, d, skip=(li,))
             return q
+    if opts and opts.get("decorate"):
+        prog.decorate(p, d)
     return p
 
 
